@@ -109,6 +109,11 @@ func c18(c *core.Ctx) {
 					if ci.Static == nil || !strings.HasPrefix(ci.Pkg, core.ModulePath) || strings.Contains(ci.Name, "Merge") {
 						continue
 					}
+					// a function that only words the refusal (every return of it is an error it constructs) decides
+					// nothing: the decision was the caller's type assertion
+					if errorMaker(ci.Static, 0) {
+						continue
+					}
 					for _, a := range call.Call.Args {
 						for _, pp := range prim.Params {
 							if core.OriginIs(a, func(x ssa.Value) bool {
